@@ -231,18 +231,29 @@ Definition scion_oracle (cp lp sender : Z) (h : scion_hdr) (payload : list Z) (n
   (rev : option (Z * list Z)) (replies : list (Z * scion_hdr * list Z)) : bool :=
   C09_scion_any_ok sender cp lp h payload ntsok rev replies.
 
-(* [conn_port local_port sender hdr payload nts spao rev [seen] sentinel_hdr sentinel sentinel_rev [seen after the sentinel]]
-   spao (by construction): 0 no client authenticator, 1 a valid one, 2 one whose MAC does not verify *)
+(* [conn_port local_port sender hdr after_hdr ulen dlen nts spao rev [seen] sentinel_hdr sentinel sentinel_rev [seen after the sentinel]]
+   after_hdr = the bytes sent after the 8-byte UDP header, ulen = the UDP length field as sent,
+   dlen = length of the whole datagram; nts (label and verdict) refers to the payload the field delimits;
+   spao (by construction): 0 no client authenticator, 1 a valid one, 2 one whose MAC does not verify.
+   Correspondence: the model's UDP layer (scion_udp_payload) gives the payload the model decides on;
+   property: the payload the length field delimits by the definition of UDP (udp_payload_spec). *)
 Definition scion_step_verdict (v : value) : option (bool * bool) :=
   match v with
-  | VL [VZ cp; VZ lp; VZ sender; h; VB payload; VZ nts; VZ spao; rev; VL reps; sh; VB sentinel; srev; VL sreps] =>
+  | VL [VZ cp; VZ lp; VZ sender; h; VB after_hdr; VZ ulen; VZ dlen; VZ nts; VZ spao; rev; VL reps; sh; VB sentinel; srev; VL sreps] =>
       match hdr_of h, rev_of rev, scion_seen_of reps, hdr_of sh, rev_of srev, scion_seen_of sreps with
       | Some h, Some rev, Some reps', Some sh, Some srev, Some sreps' =>
-          Some (scion_agree cp lp sender h payload (nts_computed nts) (spao =? 2) rev (strip_cls reps') &&
+          Some ((match scion_udp_payload dlen ulen after_hdr with
+                 | Some payload => scion_agree cp lp sender h payload (nts_computed nts) (spao =? 2) rev (strip_cls reps')
+                 | None => match reps' with [] => true | _ => false end
+                 end) &&
                 scion_agree cp lp sender sh sentinel false false srev (strip_cls sreps'),
                 all_udp reps' && all_udp sreps' && from_ok reps && from_ok sreps && nts_consistent nts &&
-                C09_scion_auth_ok (spao =? 2) sender cp lp h payload (nts_for_oracle nts) rev (strip_cls reps') &&
-                scion_details_ok cp lp h payload spao reps &&
+                (match udp_payload_spec ulen after_hdr with
+                 | Some payload =>
+                     C09_scion_auth_ok (spao =? 2) sender cp lp h payload (nts_for_oracle nts) rev (strip_cls reps') &&
+                     scion_details_ok cp lp h payload spao reps
+                 | None => match reps' with [] => true | _ => false end
+                 end) &&
                 scion_oracle cp lp sender sh sentinel false srev (strip_cls sreps') &&
                 scion_details_ok cp lp sh sentinel 0 sreps)
       | _, _, _, _, _, _ => None
